@@ -1,7 +1,7 @@
 #!/bin/bash
 # usage: seedtest.sh <patch.diff> <ID> [<ID>...]   applies the patch to /repo's working tree, runs the quick
 # checks, reverts. Never commits. Prints one line per check.
-P="$1"; shift
+P="$(readlink -f "$1")"; shift
 cd /verif
 if ! git -C /repo apply --check "$P" 2>/dev/null; then echo "patch does not apply"; exit 3; fi
 git -C /repo apply "$P"
